@@ -318,7 +318,8 @@ def dist(
       - J. Richter-Gebert: Perspectives on Projective Geometry, Section 18.8
 
     """
-    if p == q:
+    if p.tensor_shape == q.tensor_shape and p == q:
+        # equal objects of the same kind (a point and a line with proportional coordinate vectors are not equal)
         return np.zeros(p.shape[: p.free_indices])
 
     if isinstance(p, PointTensor) and isinstance(q, PointTensor):
